@@ -199,6 +199,14 @@ func c13() []*Ob {
 							underLiteral = true
 						}
 					}
+					verbatim := DerivesFromNoCall(v, func(x ssa.Value) bool {
+						_, f, _, ok := FieldOf(x)
+						return ok && f == "Data"
+					})
+					if underLiteral && !verbatim {
+						c.Violation("prov:GetHint:not-verbatim", ret.Pos(), "GetHint returns something other than the literal's first term as it was parsed: the term already carries the case the index uses (the parser lower-cases it unless the field is case-sensitive, and _exists_ always is), so a hint that is transformed again is no longer a prefix of the tokens the pattern matches and the sealed fraction selects the wrong dictionary blocks")
+						continue
+					}
 					if underLiteral {
 						c.Site(ret.Pos(), "a hint is returned only for a literal")
 					} else {
